@@ -409,6 +409,9 @@ func RunSeq(seed int64, p SeqProfile) (out []Ev) {
 	}
 	if p.Keyed {
 		g.P.Keys = []string{"k0", "k1", "k2", "k3", "k4"} // k0 is the empty string
+		if seed%2 == 0 {
+			g.P.Keys = []string{"k0", "k1", "k9870", "k53003", "k4"} // two keys whose 32-bit hashes collide
+		}
 		for _, c := range copies {
 			c.Keys = g.P.Keys
 		}
@@ -556,6 +559,33 @@ func RunSeq(seed int64, p SeqProfile) (out []Ev) {
 			}
 			g.dump()
 			continue
+		}
+		if p.Prologue == "three" && !p.Keyed && g.rnd.Float64() < 0.3 {
+			// a transaction whose blocks are NOT contiguous: one row of the lowest and one of the highest block (in either
+			// order), nothing in between - the blocks in between are not part of the commit
+			var lo, hi []uint32
+			for _, o := range g.live {
+				switch {
+				case o>>14 == 0:
+					lo = append(lo, o)
+				case o>>14 >= 2:
+					hi = append(hi, o)
+				}
+			}
+			if len(lo) > 0 && len(hi) > 0 {
+				pair := []uint32{lo[g.rnd.Intn(len(lo))], hi[g.rnd.Intn(len(hi))]}
+				if g.rnd.Intn(2) == 0 {
+					pair[0], pair[1] = pair[1], pair[0]
+				}
+				g.P.Txn("m", func(x *Tx) error {
+					for _, o := range pair {
+						x.At(o, g.writes(g.P.Cols, g.nwrites(1+g.rnd.Intn(2)), o, true), false, g.rnd.Intn(3))
+					}
+					return nil
+				})
+				g.dump()
+				continue
+			}
 		}
 		nbody := 1 + g.rnd.Intn(p.MaxBody)
 		rollback := g.rnd.Float64() < p.PRollback
